@@ -208,13 +208,29 @@ def identifier_escape_texts():
     character that may not appear there, malformed - at every position of a name, in several contexts"""
     escs = ['\\u0061', '\\u00e9', '\\u0030', '\\u200c', '\\u0301', '\\u203f', '\\u0024', '\\u005f',
             '\\u0020', '\\u005c', '\\u002e', '\\u2028', '\\u002d', '\\u00zz', '\\u12', '\\x41', '\\',
-            '\\u{61}', '\\U0061', '\\u0069f']
+            '\\u{61}', '\\U0061', '\\u0069f',
+            # escapes that stand for line terminators and white space (a pattern anchored with '$' lets a final LF through)
+            '\\u000a', '\\u000d', '\\u2029', '\\u0009', '\\u00a0', '\\ufeff', '\\u000A', '\\u0085']
     for esc in escs:
         for name in ('%s', 'a%s', 'a%sb', 'ab1%s', '%sb', '\\u0061%s', 'a%s\\u0062', '$_%sx'):
             for ctxt in ('%s', 'x = %s;', 'var %s = 1', 'a.%s', 'f(%s)', '({%s: 1})', 'function %s() {}',
                          '%s: for (;;) break %s', 'x = {get %s() {}}', 'try {} catch (%s) {}', 'x = %s in y',
                          'typeof %s'):
                 yield ctxt.replace('%s', name % esc)
+
+
+def string_escape_texts():
+    """a backslash in a string literal followed by every ASCII character and a selection of others, in both kinds of
+    quotes, alone, in the middle and at the end of the literal: 7.8.4 admits every source character after the
+    backslash except digits other than 0-7 forms, x / u without their digits (and a line terminator continues the line)"""
+    chars = [chr(c) for c in range(128)] + ['\u0085', '\u00a0', '\u00e9', '\u0301', '\u200c', '\u2028', '\u2029', '\ufeff',
+                                            '\u53d8', '\ud800', '\U0001F600', '\r\n']
+    for c in chars:
+        for q in '"\'':
+            for shape in ('%s', 'a%sb', 'ab%s', '%s%s'):
+                body = shape.replace('%s', '\\' + c)
+                yield 'x = %s%s%s;' % (q, body, q)
+            yield 'var o = {%s\\%s%s: 1}, y = 2' % (q, c, q)
 
 
 def multiline_token_texts():
